@@ -125,6 +125,63 @@ theorem runOk_fixed : ∀ (tss : List (List Bytes)) (k : Kw) (n : Nat), IsFixed 
       · simp only [Bool.false_eq_true, ↓reduceIte, List.append_nil, List.foldl_cons, stepRec_nonempty k t ht] at h3 ⊢
         rw [h3, hrecs]; simp
 
+/-- a fixed-size keyword without a smaller minimum size (`min_size` absent: EQUIL, PVTW, …) is
+not terminated by a bare `/`: `terminateKeyword` does nothing below the minimum size, and the
+`/` is then read as an empty record.  So records of defaults only come back as such — the
+finding `C19.alldefault_record` does not concern these keywords. -/
+theorem stepRec_fixed_below_min (k : Kw) (n : Nat) (hk : IsFixed k n) (hmin : k.minSize = n)
+    (hlt : k.records.length < n) (t : List Bytes) : stepRec k t = k.addRecord t := by
+  by_cases ht : t = []
+  · subst ht
+    have hterm : k.terminate = k := by
+      unfold Kw.terminate
+      have : ¬ (k.records.length ≥ k.minSize) := by rw [hmin]; omega
+      simp [hk.st, this]
+    unfold stepRec
+    simp [hterm, hk.fin]
+  · exact stepRec_nonempty k t ht
+
+theorem runOk_fixed_min : ∀ (tss : List (List Bytes)) (k : Kw) (n : Nat), IsFixed k n → k.minSize = n → tss ≠ [] →
+    k.records.length + tss.length = n → RunOk k tss false := by
+  intro tss
+  induction tss with
+  | nil => intro k n _ _ h; exact absurd rfl h
+  | cons t ts ih =>
+    intro k n hk hmin _ hlen
+    have hlt : k.records.length < n := by simp at hlen; omega
+    have hs := stepRec_fixed_below_min k n hk hmin hlt t
+    have hrecs := addRecord_records k t
+    have hmin' : (k.addRecord t).minSize = n := by
+      rw [← hmin]; unfold Kw.addRecord
+      by_cases htl : t.length > 0 <;> simp only [htl, ↓reduceIte] <;> split <;> rfl
+    cases ts with
+    | nil =>
+      have hfin : (k.addRecord t).finished = true := by
+        have hl : k.records.length + 1 = n := by simpa using hlen
+        unfold Kw.addRecord
+        by_cases htl : t.length > 0
+        · simp only [htl, ↓reduceIte]; simp [hk.st, hk.fs, hl]
+        · simp only [htl, ↓reduceIte]; simp [hk.st, hk.fs, hl]
+      exact ⟨by simp [NoEarly], by simpa [hs] using hfin, by simpa [hs] using hrecs⟩
+    | cons u us =>
+      have hnf : (k.addRecord t).finished = false := by
+        have hl : k.records.length + 1 ≠ n := by simp at hlen; omega
+        unfold Kw.addRecord
+        by_cases htl : t.length > 0
+        · simp only [htl, ↓reduceIte]; simp [hk.st, hk.fs, hk.fin, hl]
+        · simp only [htl, ↓reduceIte]; simp [hk.st, hk.fs, hk.fin, hl]
+      have hk' : IsFixed (k.addRecord t) n := by
+        refine ⟨?_, ?_, hnf⟩
+        · unfold Kw.addRecord; by_cases htl : t.length > 0 <;> simp only [htl, ↓reduceIte] <;> split <;> simp [hk.st]
+        · unfold Kw.addRecord; by_cases htl : t.length > 0 <;> simp only [htl, ↓reduceIte] <;> split <;> simp [hk.fs]
+      obtain ⟨h1, h2, h3⟩ := ih (k.addRecord t) n hk' hmin' (by simp) (by rw [hrecs]; simp at hlen ⊢; omega)
+      refine ⟨?_, ?_, ?_⟩
+      · simp only [Bool.false_eq_true, ↓reduceIte, List.append_nil] at h1 ⊢
+        exact noEarly_cons k t _ (by simp) (by rw [hs]; exact hnf) (by rw [hs]; exact h1)
+      · simpa [hs] using h2
+      · simp only [Bool.false_eq_true, ↓reduceIte, List.append_nil, List.foldl_cons, hs] at h3 ⊢
+        rw [h3, hrecs]; simp
+
 /-! ### table collection -/
 
 structure IsTable (k : Kw) : Prop where
@@ -207,6 +264,16 @@ record was empty). -/
 def DblOk : Bool → List (List Bytes) → Prop
   | tf, [] => tf = true
   | tf, t :: ts => if t.isEmpty then tf = false ∧ DblOk true ts else DblOk false ts
+
+instance instDecDblOk : (tf : Bool) → (tss : List (List Bytes)) → Decidable (DblOk tf tss)
+  | tf, [] => inferInstanceAs (Decidable (tf = true))
+  | tf, t :: ts =>
+    if h : t.isEmpty = true then
+      have : Decidable (DblOk true ts) := instDecDblOk true ts
+      decidable_of_iff (tf = false ∧ DblOk true ts) (by simp [DblOk, h])
+    else
+      have : Decidable (DblOk false ts) := instDecDblOk false ts
+      decidable_of_iff (DblOk false ts) (by simp [DblOk, h])
 
 theorem runOk_dbl : ∀ (tss : List (List Bytes)) (k : Kw), IsDbl k → DblOk k.tempFinished tss → RunOk k tss true := by
   intro tss
